@@ -50,7 +50,8 @@ Proof.
   set (r := mkRun s (export s) true 0 (Some s) (Some (export s)) None).
   assert (Hc : corr_run r = true).
   { unfold corr_run, r, fixed_v. cbn [r_sA r_gA r_val r_imp r_sB r_gB r_t].
-    rewrite Hinv, (token_roundtrip false s Hinv), (token_export_validates_lemma s Hinv). rewrite !Prelude.eqb_refl. reflexivity. }
+    assert (Hcore : invb_core s = true) by (rewrite invb_split in Hinv; apply andb_true_iff in Hinv; tauto).
+    rewrite Hcore, (token_roundtrip false s Hinv), (token_export_validates_lemma s Hinv). rewrite !Prelude.eqb_refl. reflexivity. }
   assert (Hp : prop_run r = 0).
   { unfold prop_run, r. cbn [r_sA r_gA r_val r_imp r_sB r_gB first_code]. rewrite !Prelude.eqb_refl. reflexivity. }
   rewrite Hc, Hp. reflexivity.
